@@ -183,6 +183,19 @@ def _shape_table():
             cur += ln + 1 + (i % 2)
         return vs if cur < hi else vs[:20]
 
+    @shape("many_runs_40")
+    def _(r, lo, hi, signed, bits):
+        # ~40 runs of uneven length (more than any plausible "many runs" threshold), ~100 variants
+        if bits == 8:
+            return None
+        vs = []
+        cur = -50 if signed else 3
+        for i in range(40):
+            ln = 1 + (i * 7 + 3) % 5
+            vs.extend(range(cur, cur + ln))
+            cur += ln + 1 + (i % 3)
+        return vs
+
     @shape("many_runs_uneven_neg")
     def _(r, lo, hi, signed, bits):
         if not signed:
